@@ -24,6 +24,7 @@ PROPS["C01"] = dict(
         S("host-asan", "func", ["--fam", "mul"], (1200, 500), (30000, 2100)),
         S("small-nosse-ts-asan", "func", ["--fam", "mul"], (800, 300), (20000, 1000)),
         S("small-gomp-asan", "func", ["--fam", "mul"], (600, 400), (20000, 1300), env={"OMP_NUM_THREADS": "3"}),
+        S("odd-asan", "func", ["--fam", "mul"], (1500, 700), (20000, 1500)),
     ],
     require_tags={"quick": ["strassen_depth=2", "cubic", "m4rm", "squaring"], "thorough": ["strassen_depth=3", "cubic", "m4rm", "squaring"]},
 )
@@ -104,7 +105,8 @@ PROPS["C17"] = dict(
          "zero-tail matrices, pivot search starts incl. last word/last 64 columns); oracle: model predicates; distinct = (build, observer, content class, shape class); "
          "non-trivial = inputs differ in exactly one bit / region's first one is placed by the generator",
     assumptions=MODEL,
-    stages=FUNC("obs", (8000, 300), (300000, 700), (1500, 300), (40000, 1200), (1500, 200), (40000, 400)),
+    stages=FUNC("obs", (8000, 300), (300000, 700), (1500, 300), (40000, 1200), (1500, 200), (40000, 400),
+                extra=[S("small-asan", "func", ["--fam", "obs", "--policy", "win"], (6000, 200), (150000, 500))]),
 )
 PROPS["C08"] = dict(
     level="exploration",
@@ -166,6 +168,7 @@ PROPS["C11"] = dict(
         S("small-nosse-ts-asan", "func", ["--fam", ALLFAM, "--policy", "win"], (3000, 200), (60000, 500)),
         S("host-asan", "func", ["--fam", ALLFAM, "--policy", "win"], (1500, 400), (30000, 1500)),
         S("mid-debug-asan", "func", ["--fam", ALLFAM, "--policy", "win"], (2000, 300), (40000, 900)),
+        S("odd-asan", "func", ["--fam", ALLFAM, "--policy", "win"], (2000, 450), (40000, 1000)),
         S("small-gomp-asan", "func", ["--fam", "mul,ech", "--policy", "win"], (500, 300), (10000, 700), env={"OMP_NUM_THREADS": "4"}),
         S("small-asan", "illdim", [], (840, 150), (8400, 300)),
         S("small-gomp-asan", "illdim", [], (460, 150), (4600, 300), env={"OMP_NUM_THREADS": "2"}),
@@ -184,12 +187,13 @@ PROPS["C12"] = dict(
          "parameter choices, and each build's result equals the model (names the culprit); distinct = (op class, set of regimes the builds were in); "
          "non-trivial = the same input is in different regimes in at least two builds",
     assumptions=MODEL + ["factors P,L,U,Q, kernel bases and solutions of singular systems are not unique and deliberately not digested",
-                         "cache triples sampled: 4K:32K:64K, 16K:256K:1M, 32K:1280K:54M"],
+                         "cache triples sampled: 4K:32K:64K, 6K:48K:96K (derived constants not powers of two), 16K:256K:1M, 32K:1280K:54M"],
     stages=lambda tier: [
-        _c12("small-asan", (2400, 420), (12000, 1200)),
-        _c12("host-asan", (2400, 420), (12000, 1200)),
-        _c12("small-nosse-ts-asan", (2400, 420), (12000, 1200)),
-        _c12("host-gomp-asan", (2400, 420), (12000, 1200), env={"OMP_NUM_THREADS": "4"}),
+        _c12("small-asan", (1500, 420), (12000, 1200)),
+        _c12("host-asan", (1500, 420), (12000, 1200)),
+        _c12("small-nosse-ts-asan", (1500, 420), (12000, 1200)),
+        _c12("host-gomp-asan", (1500, 420), (12000, 1200), env={"OMP_NUM_THREADS": "4"}),
+        _c12("odd-asan", (1500, 420), (12000, 1200)),
     ] + ([
         _c12("mid-debug-asan", (0, 420), (12000, 1200)),
         _c12("host-nosse-plain", (0, 420), (12000, 1200)),
